@@ -5,6 +5,10 @@
 """
 import re
 
+# texts of the notes / warnings CMinx generates itself (filled in by vlib.compare from the reference model); a note or
+# warning directive without such a text was written by the user in a doccomment and is doc text
+GENERATED_ADM_TEXTS = []
+
 DIRECTIVE_RE = re.compile(r"^\.\. ([A-Za-z][\w:+.-]*):: ?(.*)$")
 FIELD_RE = re.compile(r"^:([^:\s][^:]*|[^:\s]): ?(.*)$")
 
@@ -32,8 +36,14 @@ class Node:
     def text(self):
         return [x[1] for x in self.items if x[0] == "text"]
 
+    def _generated(self, c):
+        if c.name not in ("note", "warning"):
+            return False
+        body = (c.arg + " " + " ".join(c.text)).lower()
+        return not GENERATED_ADM_TEXTS or any(t.lower() in body for t in GENERATED_ADM_TEXTS)
+
     def admonitions(self):
-        return [(c.name, c.arg, c) for c in self.children if c.name in ("note", "warning")]
+        return [(c.name, c.arg, c) for c in self.children if self._generated(c)]
 
     def entries(self):
         return [c for c in self.children if c.name not in ("note", "warning")]
@@ -61,6 +71,10 @@ class Node:
                 out.append(x[1])
             elif x[0] == "field" and keep:
                 out.append(x[3])
+            elif x[0] == "dir" and x[1].name in ("note", "warning") and not self._generated(x[1]):
+                # a directive the user wrote in the doccomment: its lines are doc text
+                out.append(f".. {x[1].name}::" + (" " + x[1].arg if x[1].arg else ""))
+                out += ["   " + l for l in x[1].raw if l.strip()]
         return out
 
 
